@@ -225,7 +225,7 @@ def stable_key(a):
         return ("m", stable_key(a._data), mk.sexpr() if alg.is_sym(mk) else str(mk))
     n = a.n
     p = a.elem(_G0)
-    return (n.sexpr() if alg.is_sym(n) else str(n), a.kind) + tuple(x.sexpr() if alg.is_sym(x) else str(x) for x in p)
+    return (z3.simplify(n).sexpr() if alg.is_sym(n) else str(n), a.kind) + tuple(z3.simplify(x).sexpr() if alg.is_sym(x) else str(x) for x in p)
 
 
 def memo_symbol(key, make):
